@@ -62,6 +62,7 @@ type Options struct {
 	NoProm          bool
 	ConnectFunc     forwarder.ConnectFunc
 	Tweak           func(cfg *forwarder.HTTPProxyConfig, tcfg *forwarder.HTTPTransportConfig)
+	TweakTransport  func(tr *http.Transport) // last word on the transport (e.g. the wiring of another package)
 	TransportCAPEM  []byte // root CA the proxy's transport trusts (data: URI is built from it)
 	Insecure        bool
 	ShutdownTimeout time.Duration
@@ -288,6 +289,9 @@ func Start(o Options) (*World, error) {
 			ch.Apply(h)
 		}
 		return h, nil
+	}
+	if o.TweakTransport != nil {
+		o.TweakTransport(rt)
 	}
 	hp, err := forwarder.NewHTTPProxy(cfg, pr, cm, rt, w.Log.Named("proxy"), nil)
 	if err != nil {
